@@ -311,4 +311,55 @@ theorem inv_th {cfg : Cfg} {s s' : St} {me o : Nat} (hj : cfg.joinAll = true) (i
       · rw [e]; exact ⟨fun _ => Or.inr rfl, fun _ => rfl⟩
     · rw [hf.1] at hs; cases hs
 
+
+theorem getElem?_append_one {α : Type} {l : List α} {x y : α} {i : Nat} (h : (l ++ [x])[i]? = some y) :
+    l[i]? = some y ∨ y = x := by
+  rcases Nat.lt_or_ge i l.length with hi | hi
+  · left; rw [List.getElem?_append_left hi] at h; exact h
+  · right
+    rw [List.getElem?_append_right hi] at h
+    cases hk : i - l.length with
+    | zero => rw [hk] at h; simp at h; exact h.symm
+    | succ k => rw [hk] at h; simp at h
+
+theorem inv_append {s : St} {x : Th} (inv : Inv s) (hx : x.ep = none) (hk : x.kind ≠ .recon) (hw : inWindow x = false) :
+    Inv { s with th := s.th ++ [x] } := by
+  constructor
+  · intro i t h hkt
+    rcases getElem?_append_one h with h | h
+    · exact inv.reg i t h hkt
+    · subst h; exact absurd hkt hk
+  · intro i t e h he
+    rcases getElem?_append_one h with h | h
+    · exact inv.ep i t e h he
+    · subst h; rw [hx] at he; cases he
+  · intro u U h hs
+    rcases getElem?_append_one h with h | h
+    · exact inv.flag u U h hs
+    · subst h; simp [standing, hx] at hs
+  · intro u U i t h hs ht hwt
+    rcases getElem?_append_one h with h | h
+    · rcases getElem?_append_one ht with ht | ht
+      · exact inv.win u U i t h hs ht hwt
+      · subst ht; rw [hw] at hwt; cases hwt
+    · subst h; simp [standing, hx] at hs
+  · intro u U h hs
+    rcases getElem?_append_one h with h | h
+    · exact inv.io u U h hs
+    · subst h; simp [standing, hx] at hs
+
+theorem inv_step {cfg : Cfg} {s s' : St} {a : Act} (hj : cfg.joinAll = true) (inv : Inv s)
+    (h : step cfg s a = some s') : Inv s' := by
+  cases a with
+  | th me o => exact inv_th hj inv h
+  | drop c => simp only [step] at h; cases h; exact ⟨inv.reg, inv.ep, inv.flag, inv.win, inv.io⟩
+  | newDisc => simp only [step] at h; cases h; exact inv_append inv rfl (by simp) (by simp [inWindow])
+  | newReq => simp only [step] at h; cases h; exact inv_append inv rfl (by simp) (by simp [inWindow])
+  | put q => simp only [step, setQueue] at h; cases h; exact ⟨inv.reg, inv.ep, inv.flag, inv.win, inv.io⟩
+
+theorem reachable_inv {cfg : Cfg} (hj : cfg.joinAll = true) {s : St} (h : Reachable cfg s) : Inv s := by
+  induction h with
+  | init => exact inv_init
+  | step a _ hs ih => exact inv_step hj ih hs
+
 end Frappy.Client.Reconnect
